@@ -322,6 +322,12 @@ class Campaign:
                     continue
                 if rc == 1 and "FALSIFIED" in out or (rc == 1 and os.path.exists(job["prefix"] + ".failing.case") and "Falsifiable" in out):
                     self.triage(job["harness"], job["binary"], job["prefix"] + ".failing.case", "rapidcheck falsified")
+                    # a known finding (or a non-reproducible failure) must not stop the search behind it
+                    done = st.get("evaluations", 0) if st else 0
+                    job["done"] += max(1, done)
+                    job["restart"] += 1
+                    if job["done"] < job["cases"] and job["restart"] < 12 and not self.violations:
+                        pending.append(job)
                     continue
                 # abnormal exit: sanitizer report, assertion, terminate, signal
                 self.triage(job["harness"], job["binary"], job["prefix"] + ".current.case", "abnormal exit rc=%s" % rc)
